@@ -321,10 +321,69 @@ func genC16Sock(r *fw.Rng, tier string, emit func(fw.Case)) {
 	}
 }
 
+// several files announced by ONE 0x1210, same size and same tiling, each missing other chunks: the ranges a file covers
+// must not count for its neighbours (bookkeeping shared between the files of an alarm)
+func genC16Multi(r *fw.Rng, tier string, emit func(fw.Case)) {
+	n := 6
+	if tier == "thorough" {
+		n = 60
+	}
+	for i := 0; i < n; i++ {
+		astype := 1 + i%5
+		nf := 2 + r.Intn(2)
+		size := 600 + r.Intn(3000)
+		var parts []seg
+		for off := 0; off < size; {
+			l := 100 + r.Intn(500)
+			if off+l > size {
+				l = size - off
+			}
+			parts = append(parts, seg{off, l})
+			off += l
+		}
+		var files []string
+		events := []string{"A"}
+		for f := 0; f < nf; f++ {
+			files = append(files, fw.Hex([]byte(fmt.Sprintf("m%d_%d.bin", i, f)))+":"+fw.Hex(r.Bytes(size)))
+		}
+		lostOf := make([]map[int]bool, nf)
+		for f := 0; f < nf; f++ {
+			lostOf[f] = map[int]bool{}
+			if f > 0 || r.Chance(50) { // the first file is often complete: what it covers is what the others lack
+				lostOf[f][r.Intn(len(parts))] = true
+				if r.Chance(50) {
+					lostOf[f][r.Intn(len(parts))] = true
+				}
+			}
+			events = append(events, fmt.Sprintf("B%d", f))
+			for k, p := range parts {
+				if !lostOf[f][k] {
+					events = append(events, fmt.Sprintf("K%d:%d:%d", f, p.off, p.ln))
+				}
+			}
+			events = append(events, fmt.Sprintf("E%d", f))
+		}
+		for f := 0; f < nf; f++ { // resend what each file lacked, then ask again
+			if len(lostOf[f]) == 0 {
+				continue
+			}
+			for k, p := range parts {
+				if lostOf[f][k] {
+					events = append(events, fmt.Sprintf("K%d:%d:%d", f, p.off, p.ln))
+				}
+			}
+			events = append(events, fmt.Sprintf("E%d", f))
+		}
+		cut := r.U64()%1000000 + 1
+		emit(fw.Case{Op: "att", Args: []string{strconv.Itoa(astype), strconv.FormatUint(cut, 10), strings.Join(files, ";"), strings.Join(events, ","), "MULTI" + strconv.Itoa(i)}})
+	}
+}
+
 var C16 = &fw.Prop{ID: "C16",
 	Gen: func(r *fw.Rng, tier string, emit func(fw.Case)) {
 		genC16(r, tier, emit)
 		genC16Sock(r.Fork(), tier, emit)
+		genC16Multi(r.Fork(), tier, emit)
 	},
 	Oracle: func(c fw.Case) *fw.OracleFailure {
 		if c.Op == "att" {
